@@ -1,0 +1,22 @@
+//go:build verif
+
+package resource
+
+// VerifHook, when set by a verification harness before any resource is used, is called at the points of the
+// package's critical sections named by verifAt. It may block the calling goroutine (scheduling) or record it.
+var VerifHook func(point string, obj any, args ...any)
+
+func verifAt(point string, obj any, args ...any) {
+	if h := VerifHook; h != nil {
+		h(point, obj, args...)
+	}
+}
+
+// Unexported pure functions exported for direct conformance checks.
+var (
+	VerifMergeCollectionExcess = mergeCollectionExcess
+	VerifMergeChanges          = mergeChanges
+)
+
+// VerifInclude exposes CollectionChange.include.
+func VerifInclude(c *CollectionChange, f FilterFunc) (*CollectionChange, bool) { return c.include(f) }
